@@ -271,7 +271,12 @@ impl C20 {
         };
         let e1 = gc(&mut s.iter());
         let e3 = gc(&mut s.iter().step_by(3));
-        let (g1, g3) = (gc_content(&s), gc3_content(&s));
+        // the functions take any iterator: slices, owned bytes, and iterators without an exact size hint
+        let (g1, g3) = match rng.below(3) {
+            0 => (gc_content(&s), gc3_content(&s)),
+            1 => (gc_content(s.iter().filter(|_| true)), gc3_content(s.iter().filter(|_| true))),
+            _ => (gc_content(s.iter().cloned().take_while(|_| true)), gc3_content(s.clone())),
+        };
         ctx.eval(2);
         if (g1 - e1).abs() > 1e-6 || g1.is_nan() {
             ctx.violation("gc_content:wrong", Obj::new().b("seq", &s).f("got", g1 as f64).f("expected", e1 as f64).done());
